@@ -68,6 +68,19 @@ Qed.
 Definition Allowed (b : bstate) (l : Z) : Prop :=
   In l (pm_ids (b_cur b)) /\ allow_leader_o b (pm_get (b_cur b) l) false = true.
 
+Definition AllowedAfter (b : bstate) (la l : Z) : Prop :=
+  In l (pm_ids (b_cur b)) /\ allow_leader_after b (pm_get (b_cur b) l) la = true.
+
+(* the store that leads after the first transfer is exempt from the store checks: it keeps the leadership *)
+Lemma allowed_after_self b l : Allowed b l -> AllowedAfter b l l.
+Proof.
+  intros [Hin Ha]. split; [exact Hin|]. unfold allow_leader_after.
+  destruct (pm_get (b_cur b) l) as [q|] eqn:Eq.
+  - cbn [allow_leader_o] in *. unfold allow_leader in *. destruct (in_names (role_name (prole q)) no_leader_roles); [discriminate|].
+    cbn [with_leader upd_exec b_cur_leader]. assert (Hs : pstore q = l) by (apply (lk_Some _ _ _ Eq)). rewrite Hs, Z.eqb_refl. reflexivity.
+  - exfalso. unfold pm_get in Eq. fold (lk (b_cur b) l) in Eq. apply lk_None in Eq. contradiction.
+Qed.
+
 Definition same_body (p q : splan) : Prop :=
   p_add p = p_add q /\ p_remove p = p_remove q /\ p_promote p = p_promote q /\ p_demote p = p_demote q.
 
@@ -81,9 +94,9 @@ Proof. intros (A & B & C & D). unfold NE, plan_is_empty. rewrite A, B, C, D. aut
 Definition QRL (b : bstate) (next p : splan) : Prop :=
   same_body p next /\ Allowed b (lba p)
   /\ lbr p <> ostore (p_demote next) /\ lbr p <> ostore (p_remove next)
-  /\ (Allowed b (lbr p)
-      \/ (is_some (p_promote next) = true /\ lbr p = ostore (p_promote next) /\ allow_leader_o b (p_promote next) false = true)
-      \/ (is_some (p_add next) = true /\ lbr p = ostore (p_add next) /\ allow_leader_o b (p_add next) false = true)).
+  /\ (AllowedAfter b (lba p) (lbr p)
+      \/ (is_some (p_promote next) = true /\ lbr p = ostore (p_promote next) /\ allow_leader_after b (p_promote next) (lba p) = true)
+      \/ (is_some (p_add next) = true /\ lbr p = ostore (p_add next) /\ allow_leader_after b (p_add next) (lba p) = true)).
 
 Lemma plan_replace_leaders_chosen b best next :
   Chosen (QRL b next) best (plan_replace_leaders b best next).
@@ -129,7 +142,7 @@ Proof.
   destruct (negb (allow_leader_o b (pm_get (b_cur b) la) false)); [exact Hbst|].
   assert (H1 : NE (fold_left (fun best0 lr =>
                  if negb (lr =? ostore (p_demote (with_lba next la))) && negb (lr =? ostore (p_remove (with_lba next la)))
-                    && allow_leader_o b (pm_get (b_cur b) lr) false
+                    && allow_leader_after b (pm_get (b_cur b) lr) la
                  then compare_plan b best0 (with_lbr (with_lba next la) lr) else best0) (pm_ids (b_cur b)) bst)).
   { apply fold_NE; [|exact Hbst]. intros bs lr _ Hbs.
     match goal with |- NE (if ?c then _ else _) => destruct c end; [apply compare_plan_NE, with_NE, Hn|exact Hbs]. }
@@ -140,7 +153,7 @@ Qed.
 
 (* a pair of admissible leaders makes planReplaceLeaders return something *)
 Lemma plan_replace_leaders_NE_hit b best next la lr :
-  NE next -> Allowed b la -> Allowed b lr -> lr <> ostore (p_demote next) -> lr <> ostore (p_remove next) ->
+  NE next -> Allowed b la -> AllowedAfter b la lr -> lr <> ostore (p_demote next) -> lr <> ostore (p_remove next) ->
   NE (plan_replace_leaders b best next).
 Proof.
   intros Hn [Hla Ala] [Hlr Alr] N1 N2. unfold plan_replace_leaders.
@@ -149,7 +162,7 @@ Proof.
     destruct (negb (allow_leader_o b (pm_get (b_cur b) x) false)); [exact Hbst|].
     assert (H1 : NE (fold_left (fun best0 l =>
                    if negb (l =? ostore (p_demote (with_lba next x))) && negb (l =? ostore (p_remove (with_lba next x)))
-                      && allow_leader_o b (pm_get (b_cur b) l) false
+                      && allow_leader_after b (pm_get (b_cur b) l) x
                    then compare_plan b best0 (with_lbr (with_lba next x) l) else best0) (pm_ids (b_cur b)) bst)).
     { apply fold_NE; [|exact Hbst]. intros bs l _ Hbs.
       match goal with |- NE (if ?c then _ else _) => destruct c end; [apply compare_plan_NE, with_NE, Hn|exact Hbs]. }
@@ -159,7 +172,7 @@ Proof.
   - intros bst. rewrite Ala. cbn [negb].
     assert (H1 : NE (fold_left (fun best0 l =>
                    if negb (l =? ostore (p_demote (with_lba next la))) && negb (l =? ostore (p_remove (with_lba next la)))
-                      && allow_leader_o b (pm_get (b_cur b) l) false
+                      && allow_leader_after b (pm_get (b_cur b) l) la
                    then compare_plan b best0 (with_lbr (with_lba next la) l) else best0) (pm_ids (b_cur b)) bst)).
     { apply (fold_NE_hit _ _ lr); [| exact Hlr |].
       - intros bs l _ Hbs.
@@ -226,9 +239,9 @@ Qed.
 (* every accumulator step of planReplace keeps a non-empty best *)
 Lemma plan_replace_NE_of b :
   (exists d a la lr, In d (b_demote b) /\ In a (b_add b) /\ is_learner a = false
-                     /\ Allowed b la /\ Allowed b lr /\ lr <> pstore d /\ lr <> 0)
+                     /\ Allowed b la /\ AllowedAfter b la lr /\ lr <> pstore d /\ lr <> 0)
   \/ (exists a x la lr, In a (b_add b) /\ In x (b_remove b) /\ is_learner x = is_learner a /\ cur_free b (pstore a) = true
-                        /\ Allowed b la /\ Allowed b lr /\ lr <> pstore x /\ lr <> 0) ->
+                        /\ Allowed b la /\ AllowedAfter b la lr /\ lr <> pstore x /\ lr <> 0) ->
   NE (plan_replace b).
 Proof.
   intros H. unfold plan_replace. cbv zeta.
